@@ -3,6 +3,7 @@ import SdJwt.Impl.Issuer
 import SdJwt.Lemmas.IssuerL
 import SdJwt.Lemmas.Assoc
 import SdJwt.Lemmas.IssueAll
+import SdJwt.Lemmas.RefSound
 /-!
 # C07 — issued SD-JWTs are spec-conformant as judged by an independent verifier
 
@@ -112,3 +113,26 @@ example :
     (markAll (fun i _ _ => "dg" ++ toString i) 0 [(["addr"], "street"), ([], "addr")] T).map (fun r => r.1.payload)
       = some (.obj [("_sd", .arr [.str "dg1"]), ("n", .num 1 0)]) := by
   rfl
+
+/-- **T-ref: the independent verifier computes the projection.** `Ref.verify` is the draft's
+verification algorithm (§7.1) written from the text; it shares no definition with the model of
+the library.  For every conformant tree with pairwise distinct digests and every table of
+disclosures in which the entry under a marked node's digest is that node's disclosure (and no
+entry sits under a decoy), it returns exactly the tree's claims with those marked nodes present
+whose own and enclosing disclosures are in the table, top-level `_sd_alg` dropped — the expected
+subset for every subset, the original claims for all of them.  With `C07_issue` /
+`C01_encode_ok` (the issuer model's payload is the payload of such a tree) this is C07's
+statement for the model; on the real bytes `Ref.verify` is *run* by every check. -/
+theorem C07_ref (T : MJ) (wf : T.WF) (nd : T.digests.Nodup) (ndm : T.allMarks.Nodup)
+    (tbl : List (String × J)) (htbl : Ref.TblOn T.discs T.deepStale tbl)
+    (hshape : Ref.shapesOk tbl = .ok ()) (hdup : Ref.dupFree tbl = true) :
+    Ref.verify false T.payload tbl = .ok (Ref.dropAlgJ (T.project (Ref.sel tbl))) :=
+  Ref.verify_project T wf nd ndm tbl htbl hshape hdup
+
+/-- the fuel the independent verifier computes is enough for every conformant tree and table -/
+theorem C07_ref_fuel (T : MJ) (wf : T.WF) (ndm : T.allMarks.Nodup) (tbl : List (String × J))
+    (htbl : Ref.TblOn T.discs T.deepStale tbl) :
+    T.need (Ref.sel tbl) ≤ Ref.jsize T.payload + (tbl.map (fun p => Ref.jsize p.2)).sum + 2 := by
+  have h1 := Ref.MJ.need_le (Ref.sel tbl) T wf
+  have h2 := Ref.sumSel_le_tbl tbl T.discs (by rw [MJ.discs_digest]; exact ndm) htbl.own
+  omega
